@@ -54,7 +54,27 @@ type Step struct {
 type Case struct {
 	Mode  int    `json:"mode,omitempty"` // part specific (tree: 0 structured, 1 free)
 	Steps []Step `json:"steps"`
+	// Allow lists findings whose exclusion is switched off for this case; only
+	// hand-written replay files of those findings set it, generators never do.
+	Allow []string `json:"allow,omitempty"`
 }
+
+// allowed holds Case.Allow of the case being evaluated (cases are evaluated one
+// at a time).
+var allowed map[string]bool
+
+func setAllowed(c Case) {
+	allowed = nil
+	for _, id := range c.Allow {
+		if allowed == nil {
+			allowed = map[string]bool{}
+		}
+		allowed[id] = true
+	}
+}
+
+// excluding reports whether the exclusion of the given finding is active.
+func excluding(id string) bool { return !kit.NoExclusions() && !allowed[id] }
 
 // verdict is what evaluating one case yields.
 type verdict struct {
